@@ -109,18 +109,17 @@ func gen(g *hx.Gen) {
 	if g.Thorough() {
 		g.Emit("kat spec=030356dca655dc4f8b7ebf pw=74776f20636f6e7465787473 len=32 want=d87de06e80b17de29edb81216695b9506aadf92223c73c408e9e830f161e59a7")
 		g.Emit("kat spec=03034168fadfb324e006ff pw=68656c6c6f20776f726c64 len=16 want=b638c13a6a20c143dcb7ebcf277abb85")
-		g.Emit("kat spec=030328b2a984c9e13981ff pw=78 len=24 want=168b7eab90736e7f46b3548a086928d0eba18cfde2caa723")
 	}
 	nbig := 1
 	if g.Thorough() {
-		nbig = 12
+		nbig = 6
 	}
 	for i := 0; i < nbig; i++ {
 		c := r.Range(0xa0, 0xcf) // 1 MB .. 8 MB
 		if g.Thorough() {
 			c = r.Range(0xa0, 0xdf) // .. 16 MB
 		}
-		if g.Thorough() && i%3 == 0 {
+		if g.Thorough() && i == 0 {
 			c = r.Range(0xe0, 0xff) // up to 65 011 712
 		}
 		spec := append([]byte{3, 3}, r.Bytes(8)...)
@@ -128,7 +127,7 @@ func gen(g *hx.Gen) {
 		g.Stat("count.streamed-ripemd160")
 		g.Emit("ps spec=%s pw=%s len=%d", hx.Hex(spec), hx.Hex(passphrase(g)), r.PickInt(16, 20))
 	}
-	n := g.Count(2000, 20000)
+	n := g.Count(2000, 12000)
 	for i := 0; i < n; i++ {
 		a := hx.Pick(r, halgs)
 		switch k := r.Intn(20); {
